@@ -39,3 +39,13 @@ func VerifEventRequest(ev any) *model.PushRequest { return ev.(*Event).pushReque
 
 // VerifEventDone calls the event's done function (what Connection.Push does after pushing).
 func VerifEventDone(ev any) { ev.(*Event).done() }
+
+// VerifNewPushConnection is VerifNewConnection plus the server and proxy the connection belongs to, so
+// that the real Connection.Push (pushConnection -> pushXds -> stream.Send) can be driven by the harness
+// playing the pkg/xds Stream loop.
+func VerifNewPushConnection(id string, stream DiscoveryStream, s *DiscoveryServer, proxy *model.Proxy) *Connection {
+	c := VerifNewConnection(id, stream, nil)
+	c.s = s
+	c.proxy = proxy
+	return c
+}
